@@ -380,6 +380,19 @@ func vpSetReply(cmd redis.Cmder, conn *vpRConn) error {
 			return err
 		}
 		c.SetVal(f)
+	case *redis.Cmd: // generic command (pipelines)
+		switch first.kind {
+		case "null":
+			return redis.Nil
+		case "bulk":
+			c.SetVal(string(first.b))
+		case "str":
+			c.SetVal(first.s)
+		case "int":
+			c.SetVal(first.n)
+		default:
+			panic("vpSetReply: unsupported reply for a generic command")
+		}
 	case *redis.ScanCmd:
 		// [cursor, [keys...]]
 		var keys []string
